@@ -20,7 +20,7 @@ pub const KINDS: [(&str, bool); 19] = [
 ];
 pub const COUNTS: [u32; 3] = [1, 2, 12];
 pub const LAYOUTS: [&str; 3] = ["single-sheet", "first-of-3", "last-of-3"];
-pub const SHEET_OPS: [&str; 8] = ["none", "remove-first", "remove-last", "rename", "active-0", "active-1", "active-last", "remove-active"];
+pub const SHEET_OPS: [&str; 9] = ["none", "remove-first", "remove-last", "rename", "active-0", "active-1", "active-last", "remove-active", "remove-first-then-add"];
 
 fn quoted(name: &str) -> String {
     if name.chars().all(|c| c.is_ascii_alphanumeric()) {
@@ -59,7 +59,7 @@ pub fn add_kind(b: &mut Spreadsheet, idx: usize, k: usize, count: u32) {
                 let _ = b.get_sheet_mut(&idx).unwrap().add_defined_name(format!("Frm_{}", i), format!("SUM(1,{})", i));
             }
         }
-        "ext-links" => add_ext_links(b.get_sheet_mut(&idx).unwrap(), count, &|i| format!("https://example.com/{}/p{}?x={}", idx, i, i * 7)),
+        "ext-links" => add_ext_links(b.get_sheet_mut(&idx).unwrap(), count, &|i| if count >= 12 && i == 5 { String::new() } else { format!("https://example.com/{}/p{}?x={}", idx, i, i * 7) }),
         "int-links" => add_int_links(b.get_sheet_mut(&idx).unwrap(), count, &|i| format!("{}!A{}", quoted(&other), i)),
         "comments" => add_comments(b.get_sheet_mut(&idx).unwrap(), count, &|i| match i % 3 { 0 => "Author A".into(), 1 => "Author B".into(), _ => "".into() }, &|i| format!("note {} line", i)),
         "validations" => add_validations(b.get_sheet_mut(&idx).unwrap(), count, "choose", "\"a,b,c\""),
@@ -181,6 +181,10 @@ pub fn build(kinds: &[(usize, u32)], layout: usize, op: usize) -> Spreadsheet {
         }
         "active-last" => {
             b.set_active_sheet(n as u32 - 1);
+        }
+        "remove-first-then-add" if n > 1 => {
+            b.remove_sheet(0).unwrap();
+            b.new_sheet("Added later").unwrap();
         }
         "remove-active" if n > 1 => {
             b.set_active_sheet(1);
